@@ -43,6 +43,7 @@ fn pb_add_piece() {
     assert!(pb_wf(&pb));
     let s2 = any_sq();
     assert!(at(&pb, s2) == if s2 == sq { Some(k) } else { at(&old, s2) });
+    kani::cover!(true, "harness end reachable");
 }
 
 /// LEDGER pb_remove_piece
@@ -59,6 +60,7 @@ fn pb_remove_piece() {
     assert!(pb_wf(&pb));
     let s2 = any_sq();
     assert!(at(&pb, s2) == if s2 == sq { None } else { at(&old, s2) });
+    kani::cover!(true, "harness end reachable");
 }
 
 /// LEDGER pb_get_piece_kind
@@ -69,6 +71,7 @@ fn pb_get_piece_kind() {
     let sq = any_sq();
     kani::cover!(at(&pb, sq).is_some(), "occupied square reachable");
     assert!(pb.get_piece_kind(sq) == at(&pb, sq));
+    kani::cover!(true, "harness end reachable");
 }
 
 /// LEDGER pb_default / pb_builder: the start position and the builder establish pb_wf when the twelve boards are disjoint
@@ -76,6 +79,7 @@ fn pb_get_piece_kind() {
 fn pb_default_wf() {
     let pb = PieceBitboards::default();
     assert!(pb_wf(&pb));
+    kani::cover!(true, "harness end reachable");
 }
 
 /// LEDGER popcount rows used by the EVAL unit (C17)
@@ -92,4 +96,5 @@ fn pb_get_piece_count() {
         Kind::Queen(Color::Black) => (*pb.black_queens).count_ones(), Kind::King(Color::Black) => (*pb.black_king).count_ones(),
     };
     assert!(pb.get_piece_count(k) == expect);
+    kani::cover!(true, "harness end reachable");
 }
